@@ -4,7 +4,7 @@
 (* configuration, the set of abstract requests the environment may send,   *)
 (* and constructors for abstract transmitted frames.                       *)
 (***************************************************************************)
-EXTENDS Responder, TLC
+EXTENDS Mechanism, TLC
 
 CONSTANT Scope   \* 1: quick universe, 2: thorough
 CONSTANT Mtu     \* 74: EmitCap = 2, QueryCap = 2 (capacities exercised); 576: replayable on the real code
@@ -66,12 +66,5 @@ Others    == { Rq(OpHello, 0, X, Own, X, Own, 1), Rq(OpAck, 0, X, Own, X, Own, 1
              \cup (IF Scope >= 2 THEN { Rq(op, t, X, Own, X, Own, 1) : op \in {OpHello, OpAck, OpCharge, 200}, t \in {0, 2} } ELSE {})
 
 Reqs == Discovers \cup Resets \cup Probes \cup Emits \cup Queries \cup Larges \cup Others
-
-(* ------------------------------------------------------------ abstract frames *)
-Fr(op, tos, es, ed, rs, rd, seq, n) ==
-  [ n |-> n, wf |-> TRUE, why |-> "", op |-> op, tos |-> tos, ed |-> ed, es |-> es, rd |-> rd, rs |-> rs, seq |-> seq,
-    gen |-> 0 - 1, cur |-> << >>, app |-> << >>, tlvs |-> << >>, more |-> FALSE, descs |-> << >>, pay |-> << >> ]
-T(f) == [k |-> "t", rc |-> 0, f |-> f]
-S(ms) == [k |-> "s", ms |-> ms]
 
 =============================================================================
